@@ -357,6 +357,11 @@ fn gen_scenario(rng: &mut Rng) -> Scenario {
                 if rng.chance(1, 4) {
                     script.push((s1, if rng.chance(1, 2) { LinkAct::Partition(a, b) } else { LinkAct::PartitionOneway(a, b) }));
                     script.push((s2, LinkAct::Repair(a, b)));
+                } else if rng.chance(1, 5) {
+                    // a repair in the middle of a hold does not let go of what the hold keeps back; the release does
+                    script.push((s1, LinkAct::Hold(a, b)));
+                    script.push((s2, LinkAct::Repair(a, b)));
+                    script.push((s2 + rng.range(1, 6 + lat) as u32, LinkAct::Release(a, b)));
                 } else {
                     script.push((s1, LinkAct::Hold(a, b)));
                     script.push((s2, LinkAct::Release(a, b)));
